@@ -1,7 +1,1471 @@
-//! C29 — not implemented yet (see DESIGN.md section 4).
-use kit::Run;
-use serde_json::Value;
+//! C29 — resource files are confined to the manifest directory.
+//! S-inp, level `exploration`: every identifier of a traversal grammar x every generated directory tree (symlinks inside /
+//! outside the root, dangling, chained) x every public operation that turns an identifier into a file-system access, on the
+//! real `c2pa::ResourceStore` (set_base_path), `Builder::add_resource`, `Builder::with_archive` + sign (thumbnail identifier
+//! from the archive) and `Reader::to_folder`, in fresh temp directories.
+//!
+//! Ground truth: the generator records every node it creates in a model file system; a small POSIX path resolver over that
+//! model (never the SDK) says where `base.join(id)` really leads. The model is cross-checked against the kernel
+//! (`realpath`) for every (tree, id) — disagreement is a machinery failure.
+//! Oracle (property text): (1) everything below the temp dir that is not below the manifest root is byte-identical after every
+//! operation; (2) no returned / exported / embedded data equals an outside sentinel; (3) `exists` is never true and
+//! `path_for_id` never Some for an identifier whose real location is an existing object outside the root.
+//!
+//! Mutants caught (tools/mutant_run.sh F <diff> C29 quick):
+//!  * /verif/mutants/C29-no-canonical-check.diff  (symlink containment step of resolve_within_root dropped)
+//!  * /verif/mutants/C29-sanitize-allows-parent.diff (sanitize_archive_path lets `..` through)
 
-pub fn run(_run: &Run, _replay: Option<&Value>) {
-    kit::ev::machinery("C29: check not implemented");
+use std::{
+    collections::BTreeMap,
+    io::Cursor,
+    path::{Path, PathBuf},
+    sync::Mutex,
+};
+
+use c2pa::{Builder, ResourceStore};
+use kit::{
+    fsnap::{self, Node, Snap},
+    par, sdk, Run,
+};
+use serde_json::{json, Value};
+
+// ------------------------------------------------------------------------------------------------
+// tree specification
+// ------------------------------------------------------------------------------------------------
+
+#[derive(Clone, Copy, PartialEq, Eq, Debug, PartialOrd, Ord)]
+enum K {
+    Absent,
+    File,
+    Dir,
+    LnInFile,
+    LnInDir,
+    LnOutFile,
+    LnOutDir,
+    DangIn,
+    DangOut,
+    ChainOutFile,
+    ChainOutDir,
+    ChainBackIn,
+}
+const KINDS: [K; 12] = [
+    K::Absent,
+    K::File,
+    K::Dir,
+    K::LnInFile,
+    K::LnInDir,
+    K::LnOutFile,
+    K::LnOutDir,
+    K::DangIn,
+    K::DangOut,
+    K::ChainOutFile,
+    K::ChainOutDir,
+    K::ChainBackIn,
+];
+impl K {
+    fn name(self) -> &'static str {
+        match self {
+            K::Absent => "absent",
+            K::File => "file",
+            K::Dir => "dir",
+            K::LnInFile => "symlink-inside-file",
+            K::LnInDir => "symlink-inside-dir",
+            K::LnOutFile => "symlink-outside-file",
+            K::LnOutDir => "symlink-outside-dir",
+            K::DangIn => "dangling-inside",
+            K::DangOut => "dangling-outside",
+            K::ChainOutFile => "chain-outside-file",
+            K::ChainOutDir => "chain-outside-dir",
+            K::ChainBackIn => "chain-via-outside-to-inside-file",
+        }
+    }
+    fn parse(s: &str) -> K {
+        KINDS.iter().copied().find(|k| k.name() == s).unwrap_or_else(|| kit::ev::machinery(format!("C29: bad kind {s}")))
+    }
+}
+
+/// One top-level entry (named a or b) of the manifest root; `kids` are the entries a, b inside it when it is a directory.
+#[derive(Clone, Copy, PartialEq, Eq, Debug)]
+struct Entry {
+    kind: K,
+    kids: [K; 2],
+}
+impl Entry {
+    fn leaf(kind: K) -> Entry {
+        Entry { kind, kids: [K::Absent, K::Absent] }
+    }
+    fn to_json(&self) -> Value {
+        if self.kind == K::Dir {
+            json!({"kind": "dir", "a": self.kids[0].name(), "b": self.kids[1].name()})
+        } else {
+            json!({"kind": self.kind.name()})
+        }
+    }
+    fn from_json(v: &Value) -> Entry {
+        let kind = K::parse(v["kind"].as_str().unwrap_or(""));
+        if kind == K::Dir {
+            Entry { kind, kids: [K::parse(v["a"].as_str().unwrap_or("absent")), K::parse(v["b"].as_str().unwrap_or("absent"))] }
+        } else {
+            Entry::leaf(kind)
+        }
+    }
+}
+
+#[derive(Clone, Copy, PartialEq, Eq, Debug)]
+struct Tree {
+    a: Entry,
+    b: Entry,
+}
+impl Tree {
+    fn to_json(&self) -> Value {
+        json!({"a": self.a.to_json(), "b": self.b.to_json()})
+    }
+    fn from_json(v: &Value) -> Tree {
+        Tree { a: Entry::from_json(&v["a"]), b: Entry::from_json(&v["b"]) }
+    }
+}
+
+/// All variants of one top-level entry: 11 non-directory kinds + 12x12 directories = 155.
+fn entry_variants() -> Vec<Entry> {
+    let mut v = vec![];
+    for k in KINDS {
+        if k == K::Dir {
+            for ka in KINDS {
+                for kb in KINDS {
+                    v.push(Entry { kind: K::Dir, kids: [ka, kb] });
+                }
+            }
+        } else {
+            v.push(Entry::leaf(k));
+        }
+    }
+    v
+}
+
+// ------------------------------------------------------------------------------------------------
+// model file system + materialisation
+// ------------------------------------------------------------------------------------------------
+
+#[derive(Clone, Debug, PartialEq, Eq)]
+enum M {
+    File(Vec<u8>),
+    Dir,
+    Link(PathBuf),
+}
+
+/// The generated world: a temp dir T (canonical absolute path) with
+///   T/j1/j2/j3/j4/root        the manifest root (base path)
+///   T/j1/j2/j3/j4/outside     the outside directory with sentinels
+///   a, b/a at every level above root (so that `..` chains land on existing outside files)
+struct World {
+    top: PathBuf,
+    root: PathBuf,
+    outside: PathBuf,
+    /// absolute path -> node, for everything below `top`
+    model: BTreeMap<PathBuf, M>,
+    /// pristine snapshot of `top` without the root sub-tree (paths relative to top), taken right after materialisation
+    pristine_out: Snap,
+    /// pristine snapshot of the root sub-tree (paths relative to root)
+    pristine_root: Snap,
+    /// which spec entry created which symlink path (for violation keys)
+    link_kind: BTreeMap<PathBuf, K>,
+    /// change detector (inotify) armed on every directory of the pristine world; only a trigger for the full comparison
+    watch: Option<Watch>,
+}
+
+/// inotify on every directory of the world. It never decides anything: an event triggers the full snapshot comparison,
+/// and the unconditional comparison at the end of every tree turns a missed event into a machinery failure.
+struct Watch {
+    fd: i32,
+    /// watch descriptor -> directory is outside the manifest root
+    outside: BTreeMap<i32, bool>,
+}
+impl Watch {
+    fn new(w: &World) -> Watch {
+        let fd = unsafe { libc::inotify_init1(libc::IN_NONBLOCK | libc::IN_CLOEXEC) };
+        if fd < 0 {
+            kit::ev::machinery(format!("C29: inotify_init1 failed: {}", std::io::Error::last_os_error()));
+        }
+        let mask = libc::IN_CREATE | libc::IN_DELETE | libc::IN_MODIFY | libc::IN_MOVED_FROM | libc::IN_MOVED_TO | libc::IN_ATTRIB | libc::IN_CLOSE_WRITE | libc::IN_DELETE_SELF | libc::IN_MOVE_SELF | libc::IN_DONT_FOLLOW;
+        let mut outside = BTreeMap::new();
+        for (p, n) in &w.model {
+            if *n != M::Dir {
+                continue;
+            }
+            let c = std::ffi::CString::new(p.to_string_lossy().as_bytes()).unwrap_or_default();
+            let wd = unsafe { libc::inotify_add_watch(fd, c.as_ptr(), mask) };
+            if wd < 0 {
+                kit::ev::machinery(format!("C29: inotify_add_watch {} failed: {}", p.display(), std::io::Error::last_os_error()));
+            }
+            outside.insert(wd, !p.starts_with(&w.root));
+        }
+        Watch { fd, outside }
+    }
+    /// Drain pending events: (something happened outside the root, something happened inside the root)
+    fn drain(&self) -> (bool, bool) {
+        let mut buf = [0u64; 512];
+        let (mut out, mut inn) = (false, false);
+        loop {
+            let n = unsafe { libc::read(self.fd, buf.as_mut_ptr() as *mut libc::c_void, std::mem::size_of_val(&buf)) };
+            if n <= 0 {
+                break;
+            }
+            let bytes = unsafe { std::slice::from_raw_parts(buf.as_ptr() as *const u8, n as usize) };
+            let mut off = 0usize;
+            while off + 16 <= bytes.len() {
+                let wd = i32::from_ne_bytes([bytes[off], bytes[off + 1], bytes[off + 2], bytes[off + 3]]);
+                let mask = u32::from_ne_bytes([bytes[off + 4], bytes[off + 5], bytes[off + 6], bytes[off + 7]]);
+                let len = u32::from_ne_bytes([bytes[off + 12], bytes[off + 13], bytes[off + 14], bytes[off + 15]]) as usize;
+                off += 16 + len;
+                if mask & libc::IN_Q_OVERFLOW != 0 {
+                    out = true;
+                    inn = true;
+                    continue;
+                }
+                if mask & libc::IN_IGNORED != 0 {
+                    continue;
+                }
+                match self.outside.get(&wd) {
+                    Some(true) => out = true,
+                    Some(false) => inn = true,
+                    None => {
+                        out = true;
+                        inn = true;
+                    }
+                }
+            }
+        }
+        (out, inn)
+    }
+}
+impl Drop for Watch {
+    fn drop(&mut self) {
+        unsafe {
+            libc::close(self.fd);
+        }
+    }
+}
+
+const ROOT_REL: &str = "j1/j2/j3/j4/root";
+
+fn sentinel(tag: &str) -> Vec<u8> {
+    format!("VERIF-SENTINEL-{tag}-7f3a9c").into_bytes()
+}
+
+impl World {
+    fn is_outside_sentinel(&self, data: &[u8]) -> Option<String> {
+        if !data.starts_with(b"VERIF-SENTINEL-OUT") {
+            return None;
+        }
+        Some(String::from_utf8_lossy(data).into_owned())
+    }
+    fn contains_outside_sentinel(&self, data: &[u8]) -> bool {
+        let needle = b"VERIF-SENTINEL-OUT";
+        data.windows(needle.len()).any(|w| w == needle)
+    }
+}
+
+struct Maker<'a> {
+    top: PathBuf,
+    model: &'a mut BTreeMap<PathBuf, M>,
+    link_kind: &'a mut BTreeMap<PathBuf, K>,
+}
+impl Maker<'_> {
+    fn dir(&mut self, p: &Path) {
+        std::fs::create_dir_all(p).unwrap_or_else(|e| kit::ev::machinery(format!("mkdir {}: {e}", p.display())));
+        // record every component below top
+        let mut cur = PathBuf::new();
+        for c in p.components() {
+            cur.push(c);
+            if cur.starts_with(&self.top) && !self.model.contains_key(&cur) {
+                self.model.insert(cur.clone(), M::Dir);
+            }
+        }
+    }
+    fn file(&mut self, p: &Path, data: Vec<u8>) {
+        std::fs::write(p, &data).unwrap_or_else(|e| kit::ev::machinery(format!("write {}: {e}", p.display())));
+        self.model.insert(p.to_path_buf(), M::File(data));
+    }
+    fn link(&mut self, p: &Path, target: &Path, kind: Option<K>) {
+        std::os::unix::fs::symlink(target, p).unwrap_or_else(|e| kit::ev::machinery(format!("symlink {}: {e}", p.display())));
+        self.model.insert(p.to_path_buf(), M::Link(target.to_path_buf()));
+        if let Some(k) = kind {
+            self.link_kind.insert(p.to_path_buf(), k);
+        }
+    }
+}
+
+/// Create the fixed part of the world (everything except root/a and root/b).
+fn make_world(top: &Path) -> World {
+    let top = top.canonicalize().unwrap_or_else(|e| kit::ev::machinery(format!("canonicalize temp dir: {e}")));
+    let mut model = BTreeMap::new();
+    model.insert(top.clone(), M::Dir);
+    let root = top.join(ROOT_REL);
+    let outside = top.join("j1/j2/j3/j4/outside");
+    let mut w = World { top, root, outside, model, pristine_out: Snap::new(), pristine_root: Snap::new(), link_kind: BTreeMap::new(), watch: None };
+    make_outside(&mut w);
+    make_root_fixed(&mut w);
+    w
+}
+
+fn make_outside(w: &mut World) {
+    let (outside, root) = (w.outside.clone(), w.root.clone());
+    let mut mk = Maker { top: w.top.clone(), model: &mut w.model, link_kind: &mut w.link_kind };
+    mk.dir(&outside.join("sub/b"));
+    mk.file(&outside.join("secret.txt"), sentinel("OUT-secret"));
+    mk.file(&outside.join("sub/a"), sentinel("OUT-sub-a"));
+    mk.file(&outside.join("sub/b/a"), sentinel("OUT-sub-b-a"));
+    // names a, b also directly in outside/, so that `a/..`-style identifiers through a link to outside/sub land on existing objects
+    mk.file(&outside.join("a"), sentinel("OUT-a"));
+    mk.dir(&outside.join("b"));
+    mk.file(&outside.join("b/a"), sentinel("OUT-b-a"));
+    mk.link(&outside.join("hop_in"), Path::new("../root/t/f"), None);
+    // a (file) and b/a at each of the three levels above root
+    let mut lvl = root.parent().map(|p| p.to_path_buf()).unwrap_or_default();
+    for i in 1..=3 {
+        mk.file(&lvl.join("a"), sentinel(&format!("OUT-up{i}-a")));
+        mk.dir(&lvl.join("b"));
+        mk.file(&lvl.join("b/a"), sentinel(&format!("OUT-up{i}-b-a")));
+        lvl = lvl.parent().map(|p| p.to_path_buf()).unwrap_or_default();
+    }
+}
+
+fn make_root_fixed(w: &mut World) {
+    let root = w.root.clone();
+    let mut mk = Maker { top: w.top.clone(), model: &mut w.model, link_kind: &mut w.link_kind };
+    mk.dir(&root.join("t/d/b"));
+    mk.file(&root.join("t/f"), sentinel("IN-t-f"));
+    mk.file(&root.join("t/d/a"), sentinel("IN-t-d-a"));
+    mk.link(&root.join("t/hop_of"), Path::new("../../outside/secret.txt"), None);
+    mk.link(&root.join("t/hop_od"), Path::new("../../outside/sub"), None);
+}
+
+/// Remove root/a and root/b (whatever they are now) from disk and model.
+fn clear_entries(w: &mut World) {
+    for n in ["a", "b"] {
+        let p = w.root.join(n);
+        if let Ok(md) = std::fs::symlink_metadata(&p) {
+            let r = if md.is_dir() { std::fs::remove_dir_all(&p) } else { std::fs::remove_file(&p) };
+            r.unwrap_or_else(|e| kit::ev::machinery(format!("cleanup {}: {e}", p.display())));
+        }
+        let keys: Vec<PathBuf> = w.model.keys().filter(|k| k.starts_with(&p)).cloned().collect();
+        for k in keys {
+            w.model.remove(&k);
+            w.link_kind.remove(&k);
+        }
+    }
+}
+
+fn make_entry(w: &mut World, at: &Path, kind: K, depth: usize, tag: &str) {
+    // depth-1 entries use relative link targets, depth-2 entries absolute ones (both styles are covered)
+    let outside = w.outside.clone();
+    let root = w.root.clone();
+    let rel_up = if depth == 1 { PathBuf::from("..") } else { PathBuf::new() };
+    let tgt = |inside: bool, tail: &str| -> PathBuf {
+        if depth == 1 {
+            if inside {
+                PathBuf::from(tail)
+            } else {
+                rel_up.join("outside").join(tail)
+            }
+        } else if inside {
+            root.join(tail)
+        } else {
+            outside.join(tail)
+        }
+    };
+    let mut mk = Maker { top: w.top.clone(), model: &mut w.model, link_kind: &mut w.link_kind };
+    match kind {
+        K::Absent => {}
+        K::File => mk.file(at, sentinel(&format!("IN-{tag}"))),
+        K::Dir => mk.dir(at),
+        K::LnInFile => mk.link(at, &tgt(true, "t/f"), Some(kind)),
+        K::LnInDir => mk.link(at, &tgt(true, "t/d"), Some(kind)),
+        K::LnOutFile => mk.link(at, &tgt(false, "secret.txt"), Some(kind)),
+        K::LnOutDir => mk.link(at, &tgt(false, "sub"), Some(kind)),
+        K::DangIn => mk.link(at, &tgt(true, "t/ghost"), Some(kind)),
+        K::DangOut => mk.link(at, &tgt(false, "ghost"), Some(kind)),
+        K::ChainOutFile => mk.link(at, &tgt(true, "t/hop_of"), Some(kind)),
+        K::ChainOutDir => mk.link(at, &tgt(true, "t/hop_od"), Some(kind)),
+        K::ChainBackIn => mk.link(at, &tgt(false, "hop_in"), Some(kind)),
+    }
+}
+
+/// Put `tree` into the world (root/a, root/b) and take the pristine snapshot.
+fn set_tree(w: &mut World, tree: &Tree) {
+    clear_entries(w);
+    for (name, e) in [("a", tree.a), ("b", tree.b)] {
+        let p = w.root.join(name);
+        make_entry(w, &p, e.kind, 1, name);
+        if e.kind == K::Dir {
+            for (kn, kk) in [("a", e.kids[0]), ("b", e.kids[1])] {
+                let kp = p.join(kn);
+                make_entry(w, &kp, kk, 2, &format!("{name}-{kn}"));
+            }
+        }
+    }
+    w.pristine_out = fsnap::snapshot_skip(&w.top, &[Path::new(ROOT_REL)]);
+    w.pristine_root = fsnap::snapshot(&w.root);
+    // the model and the disk must agree exactly (generator self-check)
+    let mut from_model_out = Snap::new();
+    let mut from_model_root = Snap::new();
+    for (p, n) in &w.model {
+        if p == &w.top || p == &w.root {
+            continue;
+        }
+        let node = match n {
+            M::File(d) => Node::File(d.clone()),
+            M::Dir => Node::Dir,
+            M::Link(t) => Node::Symlink(t.clone()),
+        };
+        if let Ok(rel) = p.strip_prefix(&w.root) {
+            from_model_root.insert(rel.to_path_buf(), node);
+        } else {
+            from_model_out.insert(p.strip_prefix(&w.top).unwrap_or(p).to_path_buf(), node);
+        }
+    }
+    if from_model_out != w.pristine_out || from_model_root != w.pristine_root {
+        kit::ev::machinery(format!(
+            "C29: generated tree and model disagree: outside {:?} root {:?}",
+            fsnap::diff(&from_model_out, &w.pristine_out),
+            fsnap::diff(&from_model_root, &w.pristine_root)
+        ));
+    }
+    w.watch = None;
+    w.watch = Some(Watch::new(w));
+}
+
+/// Restore the pristine state after an operation changed something (only the manifest root when `outside_too` is false).
+fn restore(w: &mut World, tree: &Tree, outside_too: bool) {
+    let rm = |p: &Path| {
+        let r = match std::fs::symlink_metadata(p) {
+            Ok(md) if md.is_dir() => std::fs::remove_dir_all(p),
+            Ok(_) => std::fs::remove_file(p),
+            Err(_) => Ok(()),
+        };
+        r.unwrap_or_else(|e| kit::ev::machinery(format!("restore: {e}")));
+    };
+    if outside_too {
+        for ent in std::fs::read_dir(&w.top).into_iter().flatten().flatten() {
+            rm(&ent.path());
+        }
+        let top = w.top.clone();
+        *w = make_world(&top);
+    } else {
+        rm(&w.root);
+        let root = w.root.clone();
+        let keys: Vec<PathBuf> = w.model.keys().filter(|k| k.starts_with(&root)).cloned().collect();
+        for k in keys {
+            w.model.remove(&k);
+            w.link_kind.remove(&k);
+        }
+        let mut mk = Maker { top: w.top.clone(), model: &mut w.model, link_kind: &mut w.link_kind };
+        mk.dir(&root);
+        make_root_fixed(w);
+    }
+    set_tree(w, tree);
+}
+
+// ------------------------------------------------------------------------------------------------
+// model path resolution (POSIX semantics over the model; never calls the SDK)
+// ------------------------------------------------------------------------------------------------
+
+#[derive(Clone, Debug, PartialEq, Eq)]
+enum Res {
+    /// the path denotes an existing object at `real`
+    Exists { real: PathBuf, is_dir: bool },
+    /// every component but the last resolves; the object would be created at `real`
+    Missing { real: PathBuf },
+    /// an intermediate component is missing / not a directory / a loop
+    Broken,
+    /// resolution left the generated world (absolute path elsewhere): not modelled
+    Unknown,
+}
+
+struct Resolution {
+    res: Res,
+    /// symlinks followed, in order
+    hops: Vec<PathBuf>,
+    used_dotdot: bool,
+    absolute: bool,
+}
+
+fn resolve(w: &World, base: &Path, id: &str) -> Resolution {
+    use std::collections::VecDeque;
+    let absolute = id.starts_with('/');
+    // what Path::join does with the string: absolute ids replace the base, otherwise base + "/" + id
+    let mut cur: PathBuf = if absolute { PathBuf::from("/") } else { base.to_path_buf() };
+    let mut queue: VecDeque<String> = id.split('/').map(|s| s.to_string()).collect();
+    let mut hops = vec![];
+    let mut used_dotdot = false;
+    let mut budget = 40;
+    let known_dir = |p: &Path| -> Option<bool> {
+        // ancestors of top are real directories; below top the model decides; elsewhere unknown
+        if w.top.starts_with(p) {
+            return Some(true);
+        }
+        if p.starts_with(&w.top) {
+            return Some(matches!(w.model.get(p), Some(M::Dir)));
+        }
+        None
+    };
+    let mut last_was_file: Option<PathBuf> = None;
+    while let Some(comp) = queue.pop_front() {
+        if let Some(f) = &last_was_file {
+            // something follows a regular file: "" and "." also require a directory
+            let _ = f;
+            return Resolution { res: Res::Broken, hops, used_dotdot, absolute };
+        }
+        if comp.is_empty() || comp == "." {
+            continue;
+        }
+        if comp == ".." {
+            used_dotdot = true;
+            if let Some(p) = cur.parent() {
+                cur = p.to_path_buf();
+            }
+            continue;
+        }
+        let next = cur.join(&comp);
+        if !next.starts_with(&w.top) {
+            if w.top.starts_with(&next) {
+                cur = next; // walking down an ancestor of top
+                continue;
+            }
+            return Resolution { res: Res::Unknown, hops, used_dotdot, absolute };
+        }
+        match w.model.get(&next) {
+            Some(M::Dir) => cur = next,
+            Some(M::File(_)) => {
+                last_was_file = Some(next.clone());
+                cur = next;
+            }
+            Some(M::Link(t)) => {
+                budget -= 1;
+                if budget == 0 {
+                    return Resolution { res: Res::Broken, hops, used_dotdot, absolute };
+                }
+                hops.push(next.clone());
+                let ts = t.to_string_lossy().into_owned();
+                if ts.starts_with('/') {
+                    cur = PathBuf::from("/");
+                }
+                for (i, c) in ts.split('/').enumerate().collect::<Vec<_>>().into_iter().rev() {
+                    let _ = i;
+                    queue.push_front(c.to_string());
+                }
+            }
+            None => {
+                // missing: fine only if nothing but ""/"." follows... POSIX: a trailing slash on a missing name is still ENOENT
+                let rest_nonempty = queue.iter().any(|c| !(c.is_empty() || c == "."));
+                if rest_nonempty || known_dir(&cur) != Some(true) {
+                    return Resolution { res: Res::Broken, hops, used_dotdot, absolute };
+                }
+                return Resolution { res: Res::Missing { real: next }, hops, used_dotdot, absolute };
+            }
+        }
+    }
+    let is_dir = last_was_file.is_none();
+    if !cur.starts_with(&w.top) && !w.top.starts_with(&cur) {
+        return Resolution { res: Res::Unknown, hops, used_dotdot, absolute };
+    }
+    Resolution { res: Res::Exists { real: cur, is_dir }, hops, used_dotdot, absolute }
+}
+
+impl Resolution {
+    /// real location (existing or to-be-created) lies outside the manifest root
+    fn outside(&self, w: &World) -> bool {
+        match &self.res {
+            Res::Exists { real, .. } | Res::Missing { real } => !real.starts_with(&w.root),
+            Res::Unknown => true,
+            Res::Broken => false,
+        }
+    }
+    fn existing_outside(&self, w: &World) -> bool {
+        matches!(&self.res, Res::Exists { real, .. } if !real.starts_with(&w.root))
+    }
+    /// how the identifier gets out (for violation keys)
+    fn via(&self, w: &World) -> String {
+        if let Some(h) = self.hops.first() {
+            let k = w.link_kind.get(h).map(|k| k.name()).unwrap_or("fixed-link");
+            let depth = h.strip_prefix(&w.root).map(|r| r.components().count()).unwrap_or(0);
+            format!("{k}@depth{depth}")
+        } else if self.absolute {
+            "absolute".into()
+        } else if self.used_dotdot {
+            "dotdot".into()
+        } else {
+            "plain".into()
+        }
+    }
+}
+
+// ------------------------------------------------------------------------------------------------
+// identifiers
+// ------------------------------------------------------------------------------------------------
+
+fn alphabet(w: &World) -> Vec<String> {
+    vec![
+        "a".into(),
+        "b".into(),
+        "..".into(),
+        ".".into(),
+        "".into(),
+        "a\\..".into(),
+        "%2e%2e".into(),
+        "..%2f".into(),
+        w.outside.join("secret.txt").to_string_lossy().into_owned(), // "/abs": absolute path of an outside file
+    ]
+}
+const ALPHA_NAMES: [&str; 9] = ["a", "b", "..", ".", "", "a\\..", "%2e%2e", "..%2f", "/abs"];
+
+/// all segment index vectors of length 1..=max over an alphabet of n symbols
+fn id_vectors(n: usize, max: usize) -> Vec<Vec<usize>> {
+    let mut out = vec![];
+    let mut level: Vec<Vec<usize>> = vec![vec![]];
+    for _ in 0..max {
+        let mut next = vec![];
+        for p in &level {
+            for s in 0..n {
+                let mut q = p.clone();
+                q.push(s);
+                next.push(q);
+            }
+        }
+        out.extend(next.iter().cloned());
+        level = next;
+    }
+    out
+}
+
+fn id_string(alpha: &[String], v: &[usize]) -> String {
+    v.iter().map(|i| alpha[*i].as_str()).collect::<Vec<_>>().join("/")
+}
+fn id_symbolic(v: &[usize]) -> String {
+    v.iter().map(|i| ALPHA_NAMES[*i]).collect::<Vec<_>>().join("/")
+}
+
+// ------------------------------------------------------------------------------------------------
+// operations
+// ------------------------------------------------------------------------------------------------
+
+const ADDED: &[u8] = b"VERIF-ADDED-BY-HARNESS";
+/// cumulative time per op (index into OPS) plus [7] = file-system checks/restores, for the cost report in the evidence
+static OP_NS: [std::sync::atomic::AtomicU64; 8] = [const { std::sync::atomic::AtomicU64::new(0) }; 8];
+const OPS: [&str; 7] = ["get", "write_stream", "exists", "path_for_id", "add", "builder.add_resource", "archive+sign"];
+
+fn store(w: &World) -> ResourceStore {
+    let mut s = ResourceStore::new();
+    s.set_base_path(&w.root);
+    s
+}
+
+/// Minimal ZIP writer (stored entries) so that hostile entry names can be produced byte for byte.
+fn zip_bytes(entries: &[(&str, &[u8])]) -> Vec<u8> {
+    let mut out = vec![];
+    let mut central = vec![];
+    for (name, data) in entries {
+        let off = out.len() as u32;
+        let crc = kit::assets::crc32(data);
+        let n = name.as_bytes();
+        let mut lh = vec![];
+        lh.extend_from_slice(&0x04034b50u32.to_le_bytes());
+        lh.extend_from_slice(&20u16.to_le_bytes()); // version needed
+        lh.extend_from_slice(&0u16.to_le_bytes()); // flags
+        lh.extend_from_slice(&0u16.to_le_bytes()); // stored
+        lh.extend_from_slice(&0u16.to_le_bytes()); // time
+        lh.extend_from_slice(&0x21u16.to_le_bytes()); // date 1980-01-01
+        lh.extend_from_slice(&crc.to_le_bytes());
+        lh.extend_from_slice(&(data.len() as u32).to_le_bytes());
+        lh.extend_from_slice(&(data.len() as u32).to_le_bytes());
+        lh.extend_from_slice(&(n.len() as u16).to_le_bytes());
+        lh.extend_from_slice(&0u16.to_le_bytes());
+        out.extend_from_slice(&lh);
+        out.extend_from_slice(n);
+        out.extend_from_slice(data);
+        let mut ch = vec![];
+        ch.extend_from_slice(&0x02014b50u32.to_le_bytes());
+        ch.extend_from_slice(&20u16.to_le_bytes()); // made by
+        ch.extend_from_slice(&20u16.to_le_bytes()); // needed
+        ch.extend_from_slice(&0u16.to_le_bytes());
+        ch.extend_from_slice(&0u16.to_le_bytes());
+        ch.extend_from_slice(&0u16.to_le_bytes());
+        ch.extend_from_slice(&0x21u16.to_le_bytes());
+        ch.extend_from_slice(&crc.to_le_bytes());
+        ch.extend_from_slice(&(data.len() as u32).to_le_bytes());
+        ch.extend_from_slice(&(data.len() as u32).to_le_bytes());
+        ch.extend_from_slice(&(n.len() as u16).to_le_bytes());
+        ch.extend_from_slice(&0u16.to_le_bytes()); // extra
+        ch.extend_from_slice(&0u16.to_le_bytes()); // comment
+        ch.extend_from_slice(&0u16.to_le_bytes()); // disk
+        ch.extend_from_slice(&0u16.to_le_bytes()); // int attr
+        ch.extend_from_slice(&0u32.to_le_bytes()); // ext attr
+        ch.extend_from_slice(&off.to_le_bytes());
+        ch.extend_from_slice(n);
+        central.extend_from_slice(&ch);
+    }
+    let cd_off = out.len() as u32;
+    out.extend_from_slice(&central);
+    out.extend_from_slice(&0x06054b50u32.to_le_bytes());
+    out.extend_from_slice(&0u16.to_le_bytes());
+    out.extend_from_slice(&0u16.to_le_bytes());
+    out.extend_from_slice(&(entries.len() as u16).to_le_bytes());
+    out.extend_from_slice(&(entries.len() as u16).to_le_bytes());
+    out.extend_from_slice(&(central.len() as u32).to_le_bytes());
+    out.extend_from_slice(&cd_off.to_le_bytes());
+    out.extend_from_slice(&0u16.to_le_bytes());
+    out
+}
+
+/// Builder archive (legacy zip layout) whose manifest names `id` as the claim thumbnail and asks for a hostile base_path.
+fn archive_for(w: &World, id: &str, with_resource_entry: bool) -> Vec<u8> {
+    let manifest = json!({
+        "title": "verif-c29", "format": "", "instance_id": "",
+        "claim_generator_info": [{"name": "verif", "version": "1"}],
+        "thumbnail": {"format": "image/jpeg", "identifier": id},
+        "ingredients": [], "assertions": [], "no_embed": false, "timestamp_manifest_labels": [],
+        "base_path": w.outside.to_string_lossy(),
+    })
+    .to_string();
+    let res_name = format!("resources/{id}");
+    let mut entries: Vec<(&str, &[u8])> = vec![("version.txt", b"1"), ("manifest.json", manifest.as_bytes()), ("resources/", b""), ("manifests/", b"")];
+    if with_resource_entry {
+        entries.push((&res_name, ADDED));
+    }
+    zip_bytes(&entries)
+}
+
+#[derive(Default)]
+struct Obs {
+    /// outcome class per op
+    classes: Vec<(String, String)>,
+    /// (key, what)
+    violations: Vec<(String, String, String)>, // key, what, op
+    changed_root: bool,
+}
+
+fn short_err(e: &c2pa::Error) -> String {
+    sdk::err_kind(e)
+}
+
+/// What differs from the pristine world.
+#[derive(Default)]
+struct Changes {
+    /// differences outside the manifest root (human readable)
+    outside: Vec<String>,
+    /// current snapshot of the outside part, when it differs
+    out_now: Option<Snap>,
+    /// current snapshot of the root, when it differs
+    root_now: Option<Snap>,
+}
+impl Changes {
+    fn any(&self) -> bool {
+        self.out_now.is_some() || self.root_now.is_some()
+    }
+    fn root_changed(&self) -> bool {
+        self.root_now.is_some()
+    }
+}
+
+/// Compare (parts of) the world with the pristine snapshots.
+fn check_fs(w: &World, outside: bool, root: bool) -> Changes {
+    let mut c = Changes::default();
+    if outside {
+        let now = fsnap::snapshot_skip(&w.top, &[Path::new(ROOT_REL)]);
+        if now != w.pristine_out {
+            c.outside = fsnap::diff(&w.pristine_out, &now);
+            c.out_now = Some(now);
+        }
+    }
+    if root {
+        let now = fsnap::snapshot(&w.root);
+        if now != w.pristine_root {
+            c.root_now = Some(now);
+        }
+    }
+    c
+}
+
+/// Cheap version: a comparison only runs for the part in which the change detector saw an event.
+fn check_fs_quick(w: &World) -> Changes {
+    match &w.watch {
+        Some(wt) => {
+            let (o, i) = wt.drain();
+            if !o && !i {
+                return Changes::default();
+            }
+            check_fs(w, o, i)
+        }
+        None => check_fs(w, true, true),
+    }
+}
+
+/// Undo additions and content changes below `base`; false when something else happened (removed / retyped paths).
+fn undo(base: &Path, pristine: &Snap, now: &Snap) -> bool {
+    let mut ok = true;
+    let mut added: Vec<&PathBuf> = now.keys().filter(|p| !pristine.contains_key(*p)).collect();
+    added.sort_by_key(|p| std::cmp::Reverse(p.components().count()));
+    for p in added {
+        let abs = base.join(p);
+        let r = match now.get(p) {
+            Some(Node::Dir) => std::fs::remove_dir(&abs),
+            _ => std::fs::remove_file(&abs),
+        };
+        ok &= r.is_ok();
+    }
+    for (p, n) in pristine {
+        match (n, now.get(p)) {
+            (_, Some(m)) if m == n => {}
+            (Node::File(data), Some(Node::File(_))) => ok &= std::fs::write(base.join(p), data).is_ok(),
+            _ => ok = false,
+        }
+    }
+    ok
+}
+
+/// Bring the world back to the pristine snapshots (cheaply when possible, else by rebuilding it).
+fn repair(w: &mut World, tree: &Tree, ch: &Changes) {
+    let mut ok = true;
+    if let Some(now) = &ch.out_now {
+        ok &= undo(&w.top, &w.pristine_out, now);
+    }
+    if let Some(now) = &ch.root_now {
+        ok &= undo(&w.root, &w.pristine_root, now);
+    }
+    if !ok {
+        restore(w, tree, true);
+        return;
+    }
+    if let Some(wt) = &w.watch {
+        wt.drain();
+    }
+}
+
+/// paths outside the generated world that an absolute identifier such as "/a" could create
+fn stray_roots_present() -> Vec<&'static str> {
+    ["/a", "/b", "/..%2f", "/%2e%2e", "/a\\.."].into_iter().filter(|p| std::fs::symlink_metadata(p).is_ok()).collect()
+}
+
+fn run_op(w: &World, op: &str, id: &str, r: &Resolution, signer: &dyn c2pa::Signer, png: &[u8], obs: &mut Obs) {
+    let via = r.via(w);
+    let mut viol = |key: String, what: String| obs.violations.push((key, what, op.to_string()));
+    let class: String = match op {
+        "get" => match par::guard(|| store(w).get(id).map(|c| c.into_owned())) {
+            Err(p) => {
+                viol(format!("panic op=get via={via}"), format!("get({id:?}) panicked: {p}"));
+                "panic".into()
+            }
+            Ok(Ok(data)) => {
+                if let Some(s) = w.is_outside_sentinel(&data) {
+                    viol(format!("outside-read op=get via={via}"), format!("get({id:?}) returned the content of an outside file ({s})"));
+                    "ok-OUTSIDE".into()
+                } else {
+                    "ok".into()
+                }
+            }
+            Ok(Err(e)) => format!("err:{}", short_err(&e)),
+        },
+        "write_stream" => {
+            let mut buf = Cursor::new(Vec::new());
+            match par::guard(|| store(w).write_stream(id, &mut buf)) {
+                Err(p) => {
+                    viol(format!("panic op=write_stream via={via}"), format!("write_stream({id:?}) panicked: {p}"));
+                    "panic".into()
+                }
+                Ok(Ok(_)) => {
+                    if let Some(s) = w.is_outside_sentinel(buf.get_ref()) {
+                        viol(format!("outside-read op=write_stream via={via}"), format!("write_stream({id:?}) copied an outside file ({s})"));
+                        "ok-OUTSIDE".into()
+                    } else {
+                        "ok".into()
+                    }
+                }
+                Ok(Err(e)) => format!("err:{}", short_err(&e)),
+            }
+        }
+        "exists" => match par::guard(|| store(w).exists(id)) {
+            Err(p) => {
+                viol(format!("panic op=exists via={via}"), format!("exists({id:?}) panicked: {p}"));
+                "panic".into()
+            }
+            Ok(true) => {
+                if r.existing_outside(w) {
+                    viol(format!("outside-revealed op=exists via={via}"), format!("exists({id:?}) is true for an object whose real location {:?} is outside the root", r.res));
+                    "true-OUTSIDE".into()
+                } else {
+                    "true".into()
+                }
+            }
+            Ok(false) => "false".into(),
+        },
+        "path_for_id" => match par::guard(|| store(w).path_for_id(id)) {
+            Err(p) => {
+                viol(format!("panic op=path_for_id via={via}"), format!("path_for_id({id:?}) panicked: {p}"));
+                "panic".into()
+            }
+            Ok(Some(p)) => {
+                if r.existing_outside(w) {
+                    viol(format!("outside-path op=path_for_id via={via}"), format!("path_for_id({id:?}) = {p:?} although its real location {:?} is outside the root", r.res));
+                    "some-OUTSIDE".into()
+                } else if r.outside(w) {
+                    "some(nonexistent-outside-target)".into()
+                } else {
+                    "some".into()
+                }
+            }
+            Ok(None) => "none".into(),
+        },
+        "add" => match par::guard(|| store(w).add(id, ADDED.to_vec()).map(|_| ())) {
+            Err(p) => {
+                viol(format!("panic op=add via={via}"), format!("add({id:?}) panicked: {p}"));
+                "panic".into()
+            }
+            Ok(Ok(())) => "ok".into(),
+            Ok(Err(e)) => format!("err:{}", short_err(&e)),
+        },
+        "builder.add_resource" => {
+            let res = par::guard(|| {
+                let mut b = Builder::from_context(sdk::ctx());
+                b.set_base_path(&w.root);
+                b.add_resource(id, Cursor::new(ADDED.to_vec())).map(|_| ())
+            });
+            match res {
+                Err(p) => {
+                    viol(format!("panic op=builder.add_resource via={via}"), format!("add_resource({id:?}) panicked: {p}"));
+                    "panic".into()
+                }
+                Ok(Ok(())) => "ok".into(),
+                Ok(Err(e)) => format!("err:{}", short_err(&e)),
+            }
+        }
+        "archive+sign" => {
+            let zip = archive_for(w, id, false);
+            let res = par::guard(|| -> c2pa::Result<Vec<u8>> {
+                let mut b = Builder::from_context(sdk::ctx()).with_archive(Cursor::new(zip))?;
+                b.set_base_path(&w.root);
+                b.set_intent(c2pa::BuilderIntent::Edit);
+                let mut dst = Cursor::new(Vec::new());
+                b.sign(signer, "image/png", &mut Cursor::new(png), &mut dst)?;
+                Ok(dst.into_inner())
+            });
+            match res {
+                Err(p) => {
+                    viol(format!("panic op=archive+sign via={via}"), format!("with_archive/sign with thumbnail id {id:?} panicked: {p}"));
+                    "panic".into()
+                }
+                Ok(Ok(bytes)) => {
+                    if w.contains_outside_sentinel(&bytes) {
+                        viol(
+                            format!("outside-read op=archive+sign via={via}"),
+                            format!("a builder archive naming thumbnail {id:?} made sign() embed an outside file into the signed asset"),
+                        );
+                        "ok-OUTSIDE".into()
+                    } else {
+                        "ok".into()
+                    }
+                }
+                Ok(Err(e)) => format!("err:{}", short_err(&e)),
+            }
+        }
+        _ => kit::ev::machinery(format!("C29: unknown op {op}")),
+    };
+    obs.classes.push((op.to_string(), class));
+}
+
+/// Run every op for one (tree, id); restores the world when something changed.
+fn run_id(w: &mut World, tree: &Tree, id: &str, ops: &[&str], signer: &dyn c2pa::Signer, png: &[u8]) -> (Obs, Resolution) {
+    let base = w.root.clone();
+    let r = resolve(w, &base, id);
+    // model vs kernel (the kernel is not the SDK): realpath must agree with the model whenever the model has an opinion
+    if r.res != Res::Unknown {
+        let joined = if id.starts_with('/') { PathBuf::from(id) } else { PathBuf::from(format!("{}/{}", base.display(), id)) };
+        let k = std::fs::canonicalize(&joined);
+        match (&r.res, &k) {
+            (Res::Exists { real, .. }, Ok(kp)) if real == kp => {}
+            (Res::Missing { .. } | Res::Broken, Err(_)) => {}
+            _ => kit::ev::machinery(format!("C29: model resolver and kernel disagree on {joined:?} in tree {}: model {:?}, kernel {:?}", tree.to_json(), r.res, k)),
+        }
+    }
+    let mut obs = Obs::default();
+    let mut reads_done = false;
+    for op in ops {
+        let mutating = matches!(*op, "add" | "builder.add_resource" | "archive+sign");
+        if mutating && !reads_done {
+            // one file-system comparison for the read-only batch
+            reads_done = true;
+            let ch = check_fs_quick(w);
+            if ch.any() {
+                obs.violations.push((
+                    format!("fs-modified op=read-batch via={}", r.via(w)),
+                    format!("a read-only operation (get/write_stream/exists/path_for_id) on {id:?} changed the file system: outside {:?}, root changed {}", ch.outside, ch.root_changed()),
+                    "read-batch".into(),
+                ));
+                repair(w, tree, &ch);
+            }
+        }
+        let t0 = std::time::Instant::now();
+        run_op(w, op, id, &r, signer, png, &mut obs);
+        if let Some(i) = OPS.iter().position(|o| o == op) {
+            OP_NS[i].fetch_add(t0.elapsed().as_nanos() as u64, std::sync::atomic::Ordering::Relaxed);
+        }
+        let t1 = std::time::Instant::now();
+        let _fs_timer = FsTimer(t1);
+        if mutating {
+            let ch = check_fs_quick(w);
+            let out = &ch.outside;
+            let stray = if id.starts_with('/') { stray_roots_present() } else { vec![] };
+            if !out.is_empty() || !stray.is_empty() {
+                obs.violations.push((
+                    format!("outside-modified op={op} via={}", r.via(w)),
+                    format!("{op}({id:?}) changed the file system outside the manifest root: {out:?} {stray:?} (model: real location {:?})", r.res),
+                    op.to_string(),
+                ));
+                for s in stray {
+                    let _ = std::fs::remove_dir_all(s).or_else(|_| std::fs::remove_file(s));
+                }
+                if let Some(c) = obs.classes.last_mut() {
+                    c.1 = format!("{}-OUTSIDE-MODIFIED", c.1);
+                }
+            }
+            if ch.any() {
+                obs.changed_root |= ch.root_changed();
+                repair(w, tree, &ch);
+            }
+        }
+    }
+    (obs, r)
+}
+
+struct FsTimer(std::time::Instant);
+impl Drop for FsTimer {
+    fn drop(&mut self) {
+        OP_NS[7].fetch_add(self.0.elapsed().as_nanos() as u64, std::sync::atomic::Ordering::Relaxed);
+    }
+}
+
+fn case_json(family: &str, tree: &Tree, idv: &[usize], op: &str) -> Value {
+    json!({"family": family, "tree": tree.to_json(), "id_segments": idv, "id": id_symbolic(idv), "op": op})
+}
+
+/// Where the temp trees live: $VERIF_TMP, else /dev/shm when it is a usable tmpfs (hundreds of thousands of create/unlink
+/// operations are an order of magnitude cheaper there than on the journalled /tmp), else /tmp. Always removed afterwards.
+fn tmp_base() -> PathBuf {
+    if let Ok(p) = std::env::var("VERIF_TMP") {
+        return PathBuf::from(p);
+    }
+    let shm = Path::new("/dev/shm");
+    if shm.is_dir() && tempfile::Builder::new().prefix("verif-probe-").tempdir_in(shm).is_ok() {
+        return shm.to_path_buf();
+    }
+    PathBuf::from("/tmp")
+}
+
+fn new_top() -> tempfile::TempDir {
+    tempfile::Builder::new().prefix("verif-c29-").tempdir_in(tmp_base()).unwrap_or_else(|e| kit::ev::machinery(format!("tempdir: {e}")))
+}
+
+// ------------------------------------------------------------------------------------------------
+// Reader::to_folder family
+// ------------------------------------------------------------------------------------------------
+
+struct Export {
+    signed: Vec<u8>,
+    /// relative paths to_folder writes into an empty directory (files), discovered at start-up
+    files: Vec<PathBuf>,
+    /// every position (file or intermediate directory) that can be pre-populated
+    positions: Vec<PathBuf>,
+}
+
+fn export_seed(signer: &dyn c2pa::Signer, png: &[u8]) -> Export {
+    // an asset with a claim thumbnail, so that to_folder has a binary resource to export
+    let def = r#"{"title":"verif-c29","claim_generator_info":[{"name":"verif","version":"1"}],"thumbnail":{"format":"image/jpeg","identifier":"thumb.jpg"}}"#;
+    let mut b = sdk::builder(sdk::ctx(), def);
+    b.add_resource("thumb.jpg", Cursor::new(sentinel("IN-thumbnail")))
+        .unwrap_or_else(|e| kit::ev::machinery(format!("C29 to_folder seed: add_resource: {e:?}")));
+    let (signed, _) = sdk::sign(&mut b, signer, "image/png", png).unwrap_or_else(|e| kit::ev::machinery(format!("C29 to_folder seed: sign: {e:?}")));
+    let top = new_top();
+    let dir = top.path().join("export");
+    let rd = sdk::read(sdk::ctx(), "image/png", &signed).unwrap_or_else(|e| kit::ev::machinery(format!("C29 to_folder seed unreadable: {e:?}")));
+    rd.to_folder(&dir).unwrap_or_else(|e| kit::ev::machinery(format!("C29 to_folder into an empty dir fails: {e:?}")));
+    let snap = fsnap::snapshot(&dir);
+    let files: Vec<PathBuf> = snap.iter().filter(|(_, n)| matches!(n, Node::File(_))).map(|(p, _)| p.clone()).collect();
+    let mut positions: Vec<PathBuf> = snap.keys().cloned().collect();
+    positions.sort();
+    if files.len() < 3 {
+        kit::ev::machinery(format!("C29: to_folder wrote only {files:?}; expected reports plus a thumbnail"));
+    }
+    Export { signed, files, positions }
+}
+
+/// what is put at a position of the export folder before to_folder runs
+#[derive(Clone, Copy, PartialEq, Eq, Debug)]
+enum Pk {
+    LnOutFile,
+    LnOutDir,
+    DangOut,
+    LnInFile,
+    LnInDir,
+    ChainOutFile,
+    ChainOutDir,
+    File,
+    Dir,
+}
+const PKS: [Pk; 9] = [Pk::LnOutFile, Pk::LnOutDir, Pk::DangOut, Pk::LnInFile, Pk::LnInDir, Pk::ChainOutFile, Pk::ChainOutDir, Pk::File, Pk::Dir];
+impl Pk {
+    fn name(self) -> &'static str {
+        match self {
+            Pk::LnOutFile => "symlink-outside-file",
+            Pk::LnOutDir => "symlink-outside-dir",
+            Pk::DangOut => "dangling-outside",
+            Pk::LnInFile => "symlink-inside-file",
+            Pk::LnInDir => "symlink-inside-dir",
+            Pk::ChainOutFile => "chain-outside-file",
+            Pk::ChainOutDir => "chain-outside-dir",
+            Pk::File => "file",
+            Pk::Dir => "dir",
+        }
+    }
+    fn parse(s: &str) -> Pk {
+        PKS.iter().copied().find(|k| k.name() == s).unwrap_or_else(|| kit::ev::machinery(format!("C29: bad export kind {s}")))
+    }
+}
+
+/// Build `top/outside` (sentinels) and `top/export` with the given deviations; run to_folder; judge.
+fn export_case(exp: &Export, devs: &[(usize, Pk)]) -> (String, Vec<(String, String)>) {
+    let top = new_top();
+    let t = top.path().canonicalize().unwrap_or_else(|e| kit::ev::machinery(format!("canonicalize: {e}")));
+    let outside = t.join("outside");
+    let export = t.join("export");
+    let mk = |p: &Path| std::fs::create_dir_all(p).unwrap_or_else(|e| kit::ev::machinery(format!("mkdir: {e}")));
+    mk(&outside.join("sub"));
+    mk(&export.join(".inside/d"));
+    let wr = |p: &Path, d: Vec<u8>| std::fs::write(p, d).unwrap_or_else(|e| kit::ev::machinery(format!("write: {e}")));
+    wr(&outside.join("secret.txt"), sentinel("OUT-secret"));
+    wr(&outside.join("sub/keep"), sentinel("OUT-sub-keep"));
+    wr(&export.join(".inside/f"), sentinel("IN-f"));
+    let ln = |target: &Path, at: &Path| std::os::unix::fs::symlink(target, at).unwrap_or_else(|e| kit::ev::machinery(format!("symlink: {e}")));
+    ln(&outside.join("secret.txt"), &export.join(".inside/hop_of"));
+    ln(&outside.join("sub"), &export.join(".inside/hop_od"));
+    // deviations are applied shallowest first; a deviation below a non-directory deviation cannot be created and is skipped
+    let mut applied = vec![];
+    let mut devs_sorted: Vec<(usize, Pk)> = devs.to_vec();
+    devs_sorted.sort_by_key(|(i, _)| exp.positions[*i].components().count());
+    for (i, k) in devs_sorted {
+        let at = export.join(&exp.positions[i]);
+        if let Some(parent) = at.parent() {
+            if std::fs::create_dir_all(parent).is_err() {
+                continue;
+            }
+        }
+        if std::fs::symlink_metadata(&at).is_ok() {
+            continue;
+        }
+        match k {
+            Pk::LnOutFile => ln(&outside.join("secret.txt"), &at),
+            Pk::LnOutDir => ln(&outside.join("sub"), &at),
+            Pk::DangOut => ln(&outside.join("ghost"), &at),
+            Pk::LnInFile => ln(&export.join(".inside/f"), &at),
+            Pk::LnInDir => ln(&export.join(".inside/d"), &at),
+            Pk::ChainOutFile => ln(&export.join(".inside/hop_of"), &at),
+            Pk::ChainOutDir => ln(&export.join(".inside/hop_od"), &at),
+            Pk::File => wr(&at, sentinel("IN-preexisting")),
+            Pk::Dir => mk(&at),
+        }
+        applied.push((exp.positions[i].clone(), k));
+    }
+    let before = fsnap::snapshot(&outside);
+    let rd = match sdk::read(sdk::ctx(), "image/png", &exp.signed) {
+        Ok(r) => r,
+        Err(e) => kit::ev::machinery(format!("C29 export seed unreadable: {e:?}")),
+    };
+    let res = par::guard(|| rd.to_folder(&export));
+    let after = fsnap::snapshot(&outside);
+    let mut v = vec![];
+    let class = match &res {
+        Err(p) => {
+            v.push(("panic op=to_folder".to_string(), format!("to_folder panicked: {p}")));
+            "panic".to_string()
+        }
+        Ok(Ok(())) => "ok".to_string(),
+        Ok(Err(e)) => format!("err:{}", short_err(e)),
+    };
+    let d = fsnap::diff(&before, &after);
+    if !d.is_empty() {
+        // key by the first applied deviation that is a way out
+        let via = applied
+            .iter()
+            .filter(|(_, k)| matches!(k, Pk::LnOutFile | Pk::LnOutDir | Pk::DangOut | Pk::ChainOutFile | Pk::ChainOutDir))
+            .map(|(p, k)| {
+                let is_file_pos = exp.files.contains(p);
+                format!("{}@{}", k.name(), if is_file_pos { "exported-file" } else { "intermediate-dir" })
+            })
+            .collect::<Vec<_>>()
+            .join("+");
+        v.push((
+            format!("outside-modified op=to_folder via={via}"),
+            format!("Reader::to_folder into a folder containing {applied:?} changed the outside directory: {d:?} (result {class})"),
+        ));
+    }
+    (format!("{class}{}", if d.is_empty() { "" } else { "-OUTSIDE-MODIFIED" }), v)
+}
+
+// ------------------------------------------------------------------------------------------------
+// entry point
+// ------------------------------------------------------------------------------------------------
+
+/// One violation per key (the first case found) with the number of cases, so that thousands of instances of one defect
+/// cannot crowd out a different one.
+#[derive(Default)]
+struct Dedup {
+    m: Mutex<BTreeMap<String, (String, Value, u64)>>,
+}
+impl Dedup {
+    fn add(&self, key: String, what: String, case: Value) {
+        let mut g = self.m.lock().unwrap();
+        g.entry(key).and_modify(|e| e.2 += 1).or_insert((what, case, 1));
+    }
+    fn flush(&self, run: &Run) {
+        for (k, (what, case, n)) in self.m.lock().unwrap().iter() {
+            run.violation(k.clone(), format!("{what} [{n} case(s) with this key in this run]"), case.clone());
+        }
+    }
+}
+
+pub fn run(run: &Run, replay: Option<&Value>) {
+    run.rule("store family: every tree (root entries a,b; a in all 155 variants of {absent,file,dir(with children a,b of every kind),symlink->inside file/dir,symlink->outside file/dir,dangling inside/outside,chained->outside file/dir,chain via outside back inside}; b in a stated subset) x every identifier of <= N segments over {a,b,..,.,\"\",a\\..,%2e%2e,..%2f,/abs} x ops {get,write_stream,exists,path_for_id,add,Builder::add_resource,with_archive+sign}. \
+              export family: Reader::to_folder into folders in which every subset of <= 2 of the paths it writes (files and intermediate directories) is pre-populated with each of 9 kinds. \
+              non-trivial = (tree,id) pairs whose real location (per the model resolver) exists and lies outside the manifest root or is reached through a symlink; export cases with at least one link leading outside");
+    run.assume("Linux path semantics; temp dirs live under $VERIF_TMP, else /dev/shm (tmpfs), else /tmp, and are removed; base path is the canonical absolute path of the generated root");
+    run.assume("path_for_id returning Some for a dangling link whose (non-existent) target would lie outside is recorded as an outcome, not judged: no file exists there, so nothing is read, written, revealed or exported");
+    run.assume("for Reader::to_folder the folder passed by the caller is taken as the manifest root");
+    par::quiet_panics();
+    let signer = sdk::fixture_signer("ed25519");
+    let png = kit::assets::png();
+    if !stray_roots_present().is_empty() {
+        kit::ev::machinery(format!("C29: {:?} exist in the file-system root before the run; cannot judge absolute identifiers", stray_roots_present()));
+    }
+
+    if let Some(c) = replay {
+        replay_case(run, c, signer.as_ref(), &png);
+        return;
+    }
+
+    // ---------------- store family ----------------
+    let variants = entry_variants();
+    let b_fixed = Entry { kind: K::Dir, kids: [K::File, K::Dir] };
+    // work items: (tree, longest identifier). Space A: a in all 155 variants, b a plain directory {a: file, b: dir};
+    // space B (thorough only): a in all variants x b in each of the 12 leaf kinds, with the shorter identifiers.
+    let max_seg = run.tier.pick(3, 4);
+    let idvs_all = id_vectors(9, max_seg);
+    let n3 = id_vectors(9, 3).len();
+    let mut trees: Vec<(Tree, usize)> = variants.iter().map(|a| (Tree { a: *a, b: b_fixed }, idvs_all.len())).collect();
+    run.space(
+        &format!("store family A: {} trees (a: every variant, b: directory with a file and a directory) x {} identifiers (<= {} segments over 9 symbols) x {} ops", variants.len(), idvs_all.len(), max_seg, OPS.len()),
+        (variants.len() * idvs_all.len() * OPS.len()) as u64,
+        true,
+    );
+    if run.tier.is_thorough() {
+        for a in &variants {
+            for k in KINDS {
+                trees.push((Tree { a: *a, b: Entry::leaf(k) }, n3));
+            }
+        }
+        run.space(
+            &format!("store family B: {} trees (a: every variant x b: each of the 12 leaf kinds) x {} identifiers (<= 3 segments) x {} ops", variants.len() * KINDS.len(), n3, OPS.len()),
+            (variants.len() * KINDS.len() * n3 * OPS.len()) as u64,
+            true,
+        );
+    }
+    let dedup = Dedup::default();
+    let samples: Mutex<BTreeMap<String, Value>> = Mutex::new(BTreeMap::new());
+    let unknown_res = std::sync::atomic::AtomicU64::new(0);
+    par::for_each(&trees, |(tree, n_ids)| {
+        let idvs = &idvs_all[..*n_ids];
+        let top = new_top();
+        let mut w = make_world(top.path());
+        set_tree(&mut w, tree);
+        let alpha = alphabet(&w);
+        let mut local_out: BTreeMap<String, u64> = BTreeMap::new();
+        let mut nontrivial = 0u64;
+        for idv in idvs {
+            let id = id_string(&alpha, idv);
+            let (obs, r) = run_id(&mut w, tree, &id, &OPS, signer.as_ref(), &png);
+            if r.res == Res::Unknown {
+                unknown_res.fetch_add(1, std::sync::atomic::Ordering::Relaxed);
+            }
+            if r.existing_outside(&w) || !r.hops.is_empty() {
+                nontrivial += 1;
+            }
+            for (op, class) in &obs.classes {
+                let loc = match &r.res {
+                    Res::Exists { .. } if r.existing_outside(&w) => "outside-existing",
+                    Res::Exists { .. } => "inside-existing",
+                    Res::Missing { .. } if r.outside(&w) => "outside-missing",
+                    Res::Missing { .. } => "inside-missing",
+                    Res::Broken => "broken",
+                    Res::Unknown => "unmodelled",
+                };
+                *local_out.entry(format!("{op} {loc} -> {class}")).or_insert(0) += 1;
+            }
+            for (key, what, op) in obs.violations {
+                dedup.add(key, what, case_json("store", tree, idv, &op));
+            }
+            // keep one real sample per interesting class
+            if r.existing_outside(&w) {
+                let k = format!("{}|{}", r.via(&w), idv.len());
+                let mut g = samples.lock().unwrap();
+                if g.len() < 40 && !g.contains_key(&k) {
+                    g.insert(k, json!({"tree": tree.to_json(), "id": id_symbolic(idv), "real_location": format!("{:?}", r.res), "results": obs.classes.iter().map(|(o, c)| format!("{o}={c}")).collect::<Vec<_>>()}));
+                }
+            }
+        }
+        // end-of-tree safety net: the world must be pristine (every change should have been seen and restored above)
+        let ch = check_fs(&w, true, true);
+        if ch.any() {
+            kit::ev::machinery(format!("C29: world of tree {} not pristine at the end (a change escaped the detector): outside {:?} root_changed {}", tree.to_json(), ch.outside, ch.root_changed()));
+        }
+        run.evals((idvs.len() * OPS.len()) as u64);
+        run.nontrivial_n(nontrivial);
+        for (k, n) in local_out {
+            run.outcome_n(k, n);
+        }
+    });
+    run.extra(
+        "cpu_seconds_per_op",
+        json!(OPS.iter().chain(["fs-check+restore"].iter()).enumerate().map(|(i, o)| (o.to_string(), json!(OP_NS[i].load(std::sync::atomic::Ordering::Relaxed) as f64 / 1e9))).collect::<serde_json::Map<_, _>>()),
+    );
+    run.extra("identifiers_with_unmodelled_real_location", json!(unknown_res.load(std::sync::atomic::Ordering::Relaxed)));
+    for (_, v) in samples.lock().unwrap().iter().take(8) {
+        run.sample(v.clone());
+    }
+
+    // ---------------- archive entry names (zip-slip): independent of the tree ----------------
+    {
+        let top = new_top();
+        let mut w = make_world(top.path());
+        let tree = Tree { a: Entry::leaf(K::LnOutDir), b: Entry::leaf(K::Dir) };
+        set_tree(&mut w, &tree);
+        let alpha = alphabet(&w);
+        run.space("archive entry names: resources/<id> for every identifier, imported with Builder::with_archive", idvs_all.len() as u64, true);
+        for idv in &idvs_all {
+            let id = id_string(&alpha, idv);
+            let zip = archive_for(&w, &id, true);
+            run.eval();
+            let res = par::guard(|| Builder::from_context(sdk::ctx()).with_archive(Cursor::new(zip)).map(|_| ()));
+            let class = match &res {
+                Err(p) => {
+                    dedup.add("panic op=with_archive".into(), format!("with_archive panicked on entry resources/{id:?}: {p}"), case_json("zip", &tree, idv, "with_archive"));
+                    "panic".to_string()
+                }
+                Ok(Ok(())) => "ok".into(),
+                Ok(Err(e)) => format!("err:{}", short_err(e)),
+            };
+            run.outcome(format!("with_archive(entry name) -> {class}"));
+            let ch = check_fs(&w, true, true);
+            let (out, root_changed) = (ch.outside.clone(), ch.root_changed());
+            if ch.any() || !stray_roots_present().is_empty() {
+                dedup.add(
+                    "outside-modified op=with_archive via=entry-name".into(),
+                    format!("importing an archive with entry resources/{id:?} changed the file system: {out:?} root_changed={root_changed} {:?}", stray_roots_present()),
+                    case_json("zip", &tree, idv, "with_archive"),
+                );
+                restore(&mut w, &tree, true);
+            }
+        }
+    }
+
+    // ---------------- export family ----------------
+    let exp = export_seed(signer.as_ref(), &png);
+    let npos = exp.positions.len();
+    let mut cases: Vec<Vec<(usize, Pk)>> = vec![vec![]];
+    for i in 0..npos {
+        for k in PKS {
+            cases.push(vec![(i, k)]);
+        }
+    }
+    for i in 0..npos {
+        for j in (i + 1)..npos {
+            for k in PKS {
+                for l in PKS {
+                    cases.push(vec![(i, k), (j, l)]);
+                }
+            }
+        }
+    }
+    run.space(&format!("export family: to_folder with <= 2 of its {npos} written paths pre-populated by one of {} kinds", PKS.len()), cases.len() as u64, true);
+    run.extra("to_folder_paths", json!(exp.positions.iter().map(|p| p.display().to_string()).collect::<Vec<_>>()));
+    par::for_each(&cases, |devs| {
+        run.eval();
+        let (class, v) = export_case(&exp, devs);
+        run.outcome(format!("to_folder -> {class}"));
+        if devs.iter().any(|(_, k)| matches!(k, Pk::LnOutFile | Pk::LnOutDir | Pk::DangOut | Pk::ChainOutFile | Pk::ChainOutDir)) {
+            run.nontrivial(format!("export {devs:?}"));
+        }
+        for (key, what) in v {
+            let case = json!({"family": "export", "deviations": devs.iter().map(|(i, k)| json!({"position": i, "path": exp.positions[*i].display().to_string(), "kind": k.name()})).collect::<Vec<_>>()});
+            dedup.add(key, what, case);
+        }
+    });
+    dedup.flush(run);
+}
+
+fn replay_case(run: &Run, c: &Value, signer: &dyn c2pa::Signer, png: &[u8]) {
+    run.eval();
+    match c["family"].as_str() {
+        Some("store") | Some("zip") => {
+            let tree = Tree::from_json(&c["tree"]);
+            let idv: Vec<usize> = c["id_segments"].as_array().map(|a| a.iter().map(|x| x.as_u64().unwrap_or(0) as usize).collect()).unwrap_or_default();
+            let top = new_top();
+            let mut w = make_world(top.path());
+            set_tree(&mut w, &tree);
+            let alpha = alphabet(&w);
+            let id = id_string(&alpha, &idv);
+            println!("tree: {}", tree.to_json());
+            println!("root: {}   identifier: {id:?}", w.root.display());
+            if c["family"].as_str() == Some("zip") {
+                let zip = archive_for(&w, &id, true);
+                let res = par::guard(|| Builder::from_context(sdk::ctx()).with_archive(Cursor::new(zip)).map(|_| ()));
+                let ch = check_fs(&w, true, true);
+                let (out, root_changed) = (ch.outside.clone(), ch.root_changed());
+                println!("with_archive: {res:?}; outside changes {out:?}; root changed {root_changed}");
+                if !out.is_empty() || root_changed {
+                    run.violation("replay", format!("outside changes {out:?}"), c.clone());
+                }
+                return;
+            }
+            let op = c["op"].as_str().unwrap_or("add").to_string();
+            let ops: Vec<&str> = if op == "read-batch" { vec!["get", "write_stream", "exists", "path_for_id", "add"] } else { vec![op.as_str()] };
+            let (obs, r) = run_id(&mut w, &tree, &id, &ops, signer, png);
+            println!("model: real location {:?}, symlinks followed {:?}", r.res, r.hops);
+            for (o, cl) in &obs.classes {
+                println!("  {o} -> {cl}");
+            }
+            for (k, what, _) in obs.violations {
+                println!("  VIOLATES [{k}]: {what}");
+                run.violation(k, what, c.clone());
+            }
+        }
+        Some("export") => {
+            let exp = export_seed(signer, png);
+            let devs: Vec<(usize, Pk)> = c["deviations"]
+                .as_array()
+                .map(|a| {
+                    a.iter()
+                        .map(|d| {
+                            // positions are matched by their place in the sorted list (labels are random per run)
+                            (d["position"].as_u64().unwrap_or(0) as usize, Pk::parse(d["kind"].as_str().unwrap_or("")))
+                        })
+                        .collect()
+                })
+                .unwrap_or_default();
+            println!("to_folder writes: {:?}", exp.positions);
+            let (class, v) = export_case(&exp, &devs);
+            println!("to_folder with {devs:?} -> {class}");
+            for (k, what) in v {
+                println!("  VIOLATES [{k}]: {what}");
+                run.violation(k, what, c.clone());
+            }
+        }
+        _ => kit::ev::machinery("C29 replay: unknown family"),
+    }
 }
